@@ -398,12 +398,35 @@ def run_shard(prop: str, tier: str, seed: int, shard: int, nshards: int, out: st
         json.dump(result, f)
 
 
+class CaseTimeout(BaseException):
+    pass
+
+
+def _alarm(signum: Any, frame: Any) -> None:
+    raise CaseTimeout()
+
+
 def _make_body(c: Check, ctx: Ctx, first: list, prop: str, seed: int, shard: int):
+    import signal
+
+    limit = float(os.environ.get("VERIF_CASE_TIMEOUT", "90"))
+
     def body(case: Any) -> None:
         if ctx.out_of_time() and not ctx.frozen:
             return
+        # watchdog: a case that blocks (e.g. an unbounded retry loop inside optuna) is recorded
+        # as inconclusive, never as a violation
+        signal.signal(signal.SIGALRM, _alarm)
+        signal.setitimer(signal.ITIMER_REAL, limit)
         try:
             c.run(case, ctx)
+        except CaseTimeout:
+            if not ctx.frozen:
+                ctx.extra.setdefault("timeouts", {})
+                ctx.extra["timeouts"][c.name] = ctx.extra["timeouts"].get(c.name, 0) + 1
+                if len(ctx.extra.setdefault("timeout_samples", {})) < 2:
+                    ctx.extra["timeout_samples"][f"{c.name}-{shard}-{ctx.evaluations}"] = json.dumps(enc(case))[:3000]
+            return
         except Violation as v:
             if v.case is None:
                 v.case = case
@@ -412,6 +435,8 @@ def _make_body(c: Check, ctx: Ctx, first: list, prop: str, seed: int, shard: int
                 ctx.frozen = True
                 _write_replay(prop, c.name, v, suffix=f"unshrunk-s{seed}-{shard}")
             raise
+        finally:
+            signal.setitimer(signal.ITIMER_REAL, 0)
 
     return body
 
